@@ -42,6 +42,19 @@ func (e *Engine) invoke(st *State, f *Frame, res ssa.Value, in ssa.Instruction, 
 			e.panicCheck(st, f, in, e.tb.ff, "method call on nil interface")
 			return
 		}
+		if e.hashInvoke(st, f, res, func(v Value) {
+			if res != nil {
+				f.locals[res] = v
+			}
+		}, iv, cc.Method.Name(), args) {
+			return
+		}
+		if e.isWrapErr(iv) && cc.Method.Name() == "Error" {
+			if res != nil {
+				f.locals[res] = st.obj(iv.val.(PtrV).obj).fields[0]
+			}
+			return
+		}
 		callee = e.prog.LookupMethod(iv.typ, cc.Method.Pkg(), cc.Method.Name())
 		if callee == nil {
 			panic(hardErr(fmt.Sprintf("no method %s on %s", cc.Method.Name(), iv.typ)))
@@ -773,6 +786,16 @@ func (e *Engine) strEq(a, b StrV) Term {
 			if a.tag != b.tag {
 				return tb.ff
 			}
+			if a.parts != nil && b.parts != nil {
+				if len(a.parts) != len(b.parts) {
+					return tb.ff
+				}
+				r := tb.tt
+				for i := range a.parts {
+					r = tb.And(r, e.strEq(a.parts[i], b.parts[i]))
+				}
+				return r
+			}
 			return tb.Eq(a.t, b.t)
 		}
 		// opaque vs literal/bytes: an opaque string is never empty and never equals a literal
@@ -881,11 +904,8 @@ func (e *Engine) mkCompositeStr(parts []StrV) StrV {
 		}
 		if t == nil {
 			t = pt
-		} else if e.ia {
-			panic(hardErr("composite opaque strings in IA mode"))
-		} else {
-			t = tb.Concat(t, pt)
 		}
+		_ = tb
 	}
 	tag += ")"
 	if t == nil {
@@ -895,5 +915,5 @@ func (e *Engine) mkCompositeStr(parts []StrV) StrV {
 }
 
 func (e *Engine) opaqueStrBytes(st *State, s StrV) Value {
-	panic(hardErr("[]byte(opaque string " + s.tag + ")"))
+	return e.opaqueBytesSlice(st, s, -1)
 }
